@@ -9,12 +9,15 @@ import (
 	"strings"
 	"sync"
 	"sync/atomic"
+	"time"
 
 	"github.com/anishathalye/porcupine"
 	hessian "github.com/vogo/gohessian"
 
+	"verif/hspec"
 	"verif/mon"
 	"verif/zoo"
+	"verif/zoo/alt3"
 )
 
 // C17 — the pool hands each object to one holder at a time and never blocks.
@@ -68,6 +71,10 @@ func (c17) Cases(tier string, seed int64, kf *KnownFindings) []Case {
 			}
 		}
 		add(Case{Kind: "fresh", K: ctor})
+		add(Case{Kind: "nilmaps", K: ctor, N: 4})
+		add(Case{Kind: "nilmaps", K: ctor, N: 4, M: 8, Count: 40, Opt: []string{"race"}})
+		add(Case{Kind: "abandon", K: ctor, N: 1, Count: 6})
+		add(Case{Kind: "abandon", K: ctor, N: 4, Count: 6})
 	}
 	return cs
 }
@@ -528,6 +535,10 @@ func (c17) Run(c Case, env *Env) Result {
 		res.NT = append(res.NT, Hash64(fmt.Sprint(feats)))
 		res.Count("nonblocking_calls_completed", int64(len(m.events))+int64(2*(c.N+3)))
 		res.Max("kept_after_overfull_returns", int64(n))
+	case "nilmaps":
+		c17nilmaps(c, env, &res, viol)
+	case "abandon":
+		c17abandon(c, env, &res, viol, tm, nm)
 	case "fresh":
 		p := newPool(c.K, 0, tm, nm)
 		for i := 0; i < 5; i++ {
@@ -735,4 +746,197 @@ func c17lin(c Case, env *Env, res *Result, feats []string, tm map[string]reflect
 			res.Sample(map[string]interface{}{"kind": "linearizability history", "size": c.N, "clients": clients, "ops": len(ops), "head": hs})
 		}
 	}
+}
+
+// ---- objects of a pool built WITHOUT maps are independent of one another
+
+// probeLikeFresh runs the same probes on o and on a newly constructed object of its kind and
+// returns a description of the first difference ("" if none).
+func probeLikeFresh(o interface{}) string {
+	inner := &zoo.Inner{A: 1, S: "x"}
+	named := alt3.Inner{"k": 1}
+	innerWire, _ := hspec.Encode(hspec.Object("Inner", []string{"a", "s"}, hspec.Int(1), hspec.String("x")), hspec.Canonical{}, hspec.EncOpts{})
+	outcome := func(x interface{}) string {
+		var out []string
+		Guard(func() {
+			switch t := x.(type) {
+			case *hessian.Encoder:
+				for _, v := range []interface{}{inner, named} {
+					w := &mon.CountingWriter{}
+					err := t.WriteTo(w, v)
+					out = append(out, fmt.Sprintf("%x/%v", w.Buf.Bytes(), err != nil))
+				}
+			case *hessian.Decoder:
+				v, err := t.Decode(innerWire)
+				out = append(out, fmt.Sprintf("%T/%v", v, err != nil))
+			case hessian.Serializer:
+				for _, v := range []interface{}{named, inner} {
+					b, err := t.ToBytes(v)
+					out = append(out, fmt.Sprintf("%x/%v", b, err != nil))
+				}
+				v, err := t.ToObject(innerWire)
+				out = append(out, fmt.Sprintf("%T/%v", v, err != nil))
+			}
+		})
+		return strings.Join(out, " | ")
+	}
+	var fresh interface{}
+	switch o.(type) {
+	case *hessian.Encoder:
+		fresh = hessian.NewEncoder(nil, nil)
+	case *hessian.Decoder:
+		fresh = hessian.NewDecoder(nil, nil)
+	default:
+		fresh = hessian.NewSerializer(nil, nil)
+	}
+	if got, want := outcome(o), outcome(fresh); got != want {
+		return fmt.Sprintf("behaves as %s, a newly constructed object as %s", got, want)
+	}
+	return ""
+}
+
+func c17nilmaps(c Case, env *Env, res *Result, viol func(string, string)) {
+	p := newPool(c.K, c.N, nil, nil)
+	isRace := false
+	for _, o := range c.Opt {
+		isRace = isRace || o == "race"
+	}
+	if isRace {
+		// M holders obtain objects from the empty pool at once and use them at once; nobody returns
+		// anything, so every object is fresh and private: the race detector must stay silent
+		var wg sync.WaitGroup
+		start := make(chan struct{})
+		for g := 0; g < c.M; g++ {
+			wg.Add(1)
+			go func(g int) {
+				defer wg.Done()
+				<-start
+				for i := 0; i < c.Count; i++ {
+					o := p.Get()
+					Guard(func() {
+						switch t := o.(type) {
+						case *hessian.Encoder:
+							t.WriteTo(&mon.CountingWriter{}, &zoo.WithInner{N: int32(i)})
+							t.RegisterNameType(fmt.Sprintf("T%d", g), "x")
+						case *hessian.Decoder:
+							t.RegisterType(fmt.Sprintf("T%d", g), reflect.TypeOf(zoo.Inner{}))
+						case hessian.Serializer:
+							t.ToBytes(&zoo.WithInner{N: int32(i)})
+						}
+					})
+					atomic.AddInt64(&res.Evals, 1)
+				}
+			}(g)
+		}
+		close(start)
+		wg.Wait()
+		res.NT = append(res.NT, Hash64(fmt.Sprint("nilmaps-race", c.K)))
+		res.Count("concurrent_uses_of_fresh_objects_of_a_mapless_pool", int64(c.M*c.Count))
+		return
+	}
+	o1, o2 := p.Get(), p.Get() // the pool is empty: two new objects
+	// whatever is registered through (or learned by) o1 must not show in o2, nor in later new objects
+	Guard(func() {
+		switch t := o1.(type) {
+		case *hessian.Encoder:
+			t.RegisterNameType("Inner", "renamed.By.o1")
+			t.WriteTo(&mon.CountingWriter{}, &zoo.WithInner{})
+		case *hessian.Decoder:
+			t.RegisterType("Inner", reflect.TypeOf(zoo.Inner{}))
+			t.RegisterVal("Other", zoo.Inner2{})
+		case hessian.Serializer:
+			t.ToBytes(&zoo.Inner{A: 9}) // an encoder learns the class names it meets
+			t.ToBytes(&zoo.WithInner{})
+		}
+	})
+	res.Evals += 3
+	res.NT = append(res.NT, Hash64(fmt.Sprint("nilmaps", c.K)), Hash64(fmt.Sprint("nilmaps2", c.K)))
+	if d := probeLikeFresh(o2); d != "" {
+		viol("fresh-not-independent", "pool built without maps: after registrations through ANOTHER object of the pool, an object obtained from the empty pool "+d)
+	}
+	o3 := p.Get()
+	if d := probeLikeFresh(o3); d != "" {
+		viol("fresh-not-independent", "pool built without maps: after registrations through another object, the NEXT object obtained from the empty pool "+d)
+	}
+	res.Count("independence_probes", 2)
+	p.Return(o1)
+	p.Return(o2)
+	p.Return(o3)
+}
+
+// ---- an object its holder never returns is never handed out again
+
+func c17abandon(c Case, env *Env, res *Result, viol func(string, string), tm map[string]reflect.Type, nm map[string]string) {
+	p := newPool(c.K, c.N, tm, copyNames(nm))
+	two := func(id int) []byte { // two top-level ints: the first is consumed when marking, the second identifies
+		b, _ := hspec.Encode(hspec.Int(1), hspec.Canonical{}, hspec.EncOpts{})
+		b2, _ := hspec.Encode(hspec.Int(int32(1000+id)), hspec.Canonical{}, hspec.EncOpts{})
+		return append(b, b2...)
+	}
+	var writers []*mon.CountingWriter
+	id := 0
+	for round := 0; round < c.Count; round++ {
+		// holders obtain objects from the EMPTY pool, start using them (which leaves a mark in the
+		// object: its current writer / reader) and never return them
+		for k := 0; k < c.N+3; k++ {
+			o := p.Get()
+			w := &mon.CountingWriter{}
+			writers = append(writers, w)
+			Guard(func() {
+				switch t := o.(type) {
+				case *hessian.Encoder:
+					t.WriteTo(w, int32(id))
+				case *hessian.Decoder:
+					t.ReadFrom(mon.NewReader(two(id)))
+				case hessian.Serializer:
+					t.WriteTo(w, int32(id))
+					t.ReadFrom(mon.NewReader(two(id)))
+				}
+			})
+			id++
+			o = nil
+		}
+		for i := 0; i < 3; i++ {
+			runtime.GC()
+			runtime.Gosched()
+			time.Sleep(2 * time.Millisecond) // room for a finalizer goroutine, if the library has one; not a deciding deadline
+		}
+		marks := make([]int, len(writers))
+		for i, w := range writers {
+			marks[i] = w.Buf.Len()
+		}
+		// nothing was ever returned: every object obtained now must be new (no writer, no reader)
+		for k := 0; k < c.N+2; k++ {
+			o := p.Get()
+			res.Evals++
+			what := ""
+			Guard(func() {
+				switch t := o.(type) {
+				case *hessian.Encoder:
+					t.WriteObject(int32(7))
+				case *hessian.Decoder:
+					if v, err := t.ReadObject(); err == nil {
+						what = fmt.Sprintf("continues the stream of an abandoned holder (read %v)", v)
+					}
+				case hessian.Serializer:
+					t.Write(int32(7))
+					if v, err := t.Read(); err == nil {
+						what = fmt.Sprintf("continues the stream of an abandoned holder (read %v)", v)
+					}
+				}
+			})
+			for i, w := range writers {
+				if w.Buf.Len() != marks[i] {
+					what = fmt.Sprintf("writes into the writer of holder #%d, who obtained its object earlier and never returned it", i)
+					marks[i] = w.Buf.Len()
+				}
+			}
+			if what != "" {
+				viol("abandoned-object-handed-out", fmt.Sprintf("round %d: nothing was ever returned to the pool, yet an object obtained from it %s", round, what))
+			}
+		}
+	}
+	res.NT = append(res.NT, Hash64(fmt.Sprint("abandon", c.K, c.N)), Hash64(fmt.Sprint("abandon2", c.K, c.N)))
+	res.Count("abandoned_objects", int64(id))
+	res.Count("garbage_collections_forced", int64(3*c.Count))
 }
